@@ -67,8 +67,17 @@ def run(res, tier, build_ok):
             cand.add(rng.getrandbits(8 * n) if n else 0)
         for v in cand:
             vals.append((v, n))
+    def guarded(sig, what, replay, fn):
+        try:
+            return True, fn()
+        except Exception as e:   # the implementation must not raise inside the property's domain
+            res.violation(sig + " raises", what + " raises " + type(e).__name__, dict(replay, exception=type(e).__name__))
+            return False, None
+
     for v, n in vals:
-        ba = cv.scsi_int_to_ba(v, n)
+        ok, ba = guarded("int_ba_roundtrip", "scsi_int_to_ba", {"v": v, "n": n}, lambda: cv.scsi_int_to_ba(v, n))
+        if not ok:
+            continue
         res.case(("i2b", v, n), {"op": "scsi_int_to_ba", "v": v, "n": n, "out": bytes(ba).hex()})
         res.count("int_to_ba")
         ok = isinstance(ba, bytearray) and len(ba) == n and bytes(ba) == v.to_bytes(n, "big") \
@@ -80,7 +89,9 @@ def run(res, tier, build_ok):
     for _ in range(300 * scale):
         n = rng.randint(0, 12)
         b = rand_bytes(rng, n)
-        i = cv.scsi_ba_to_int(b)
+        ok, i = guarded("ba_int_roundtrip", "scsi_ba_to_int", {"bytes": bytes(b).hex()}, lambda: cv.scsi_ba_to_int(b))
+        if not ok:
+            continue
         res.case(("b2i", bytes(b)))
         res.count("ba_to_int")
         if i != int.from_bytes(b, "big") or bytes(cv.scsi_int_to_ba(i, n)) != bytes(b):
@@ -91,7 +102,10 @@ def run(res, tier, build_ok):
     for _ in range(50 * scale):
         n = rng.randint(0, 6)
         v = rng.getrandbits(8 * n + rng.randint(1, 16))
-        add("i2b %d %d" % (v, n), "ok " + hx(cv.scsi_int_to_ba(v, n)), ("i2b-trunc", v, n))
+        try:
+            add("i2b %d %d" % (v, n), "ok " + hx(cv.scsi_int_to_ba(v, n)), ("i2b-trunc", v, n))
+        except Exception as e:
+            add("i2b %d %d" % (v, n), "err " + type(e).__name__, ("i2b-trunc", v, n))
 
     # ---- 2. single mask fields
     cases = field_cases(rng, 900 * scale)
@@ -107,7 +121,10 @@ def run(res, tier, build_ok):
     for (L, w, s, off, nb, prior, mask, p, v) in cases:
         lay = {"f": [mask, off]}
         buf = bytearray(prior)
-        cv.encode_dict({"f": v}, lay, buf)
+        ok, _ = guarded("encode_exact", "encode_dict", {"mask": mask, "off": off, "prior": bytes(prior).hex(), "value": v},
+                        lambda: cv.encode_dict({"f": v}, lay, buf))
+        if not ok:
+            continue
         res.case(("enc1", L, w, s, off, bytes(prior), v),
                  {"op": "encode_dict one field", "mask": hex(mask), "off": off, "prior": bytes(prior).hex(),
                   "value": v, "out": bytes(buf).hex()})
@@ -115,7 +132,10 @@ def run(res, tier, build_ok):
         N0 = int.from_bytes(prior, "big")
         N1 = int.from_bytes(buf, "big")
         out = {}
-        cv.decode_bits(buf, lay, out)
+        ok, _ = guarded("decode_encode", "decode_bits", {"mask": mask, "off": off, "data": bytes(buf).hex()},
+                        lambda: cv.decode_bits(buf, lay, out))
+        if not ok:
+            continue
         if len(buf) != L or N1 != (N0 | (v << p)):
             res.violation("encode_exact", "encode_dict does not write the value into exactly the bits of its field",
                           {"mask": mask, "off": off, "prior": bytes(prior).hex(), "value": v, "got": bytes(buf).hex(),
@@ -181,9 +201,11 @@ def run(res, tier, build_ok):
         order2 = keys[:]
         rng.shuffle(order2)
         b1 = bytearray(L)
-        cv.encode_dict({k: vals[k] for k in order1}, lay, b1)
         b2 = bytearray(L)
-        cv.encode_dict({k: vals[k] for k in order2}, lay, b2)
+        ok, _ = guarded("order_independent", "encode_dict on a layout", {"layout": {k: list(v) for k, v in lay.items()}},
+                        lambda: (cv.encode_dict({k: vals[k] for k in order1}, lay, b1), cv.encode_dict({k: vals[k] for k in order2}, lay, b2)))
+        if not ok:
+            continue
         res.case(("layout", tuple(sorted((k, tuple(v)) for k, v in lay.items())), tuple(order1)),
                  {"op": "encode_dict layout", "layout": {k: list(v) for k, v in lay.items()}, "order": order1,
                   "out": bytes(b1).hex()})
